@@ -72,6 +72,8 @@ type Ctx struct {
 	Variant string
 	// ReplayFile, when set, is the replay witness written by the driver for the case in Only.
 	ReplayFile string
+	// OutPrefix is the path prefix of this worker's output files (<prefix>.jsonl, <prefix>.race.*).
+	OutPrefix string
 
 	mu       sync.Mutex
 	out      *os.File
@@ -108,6 +110,7 @@ func FromFlags() *Ctx {
 		fmt.Fprintln(os.Stderr, "worker: -out required")
 		os.Exit(3)
 	}
+	c.OutPrefix = out
 	var err error
 	if c.out, err = os.OpenFile(out+".jsonl", os.O_CREATE|os.O_WRONLY|os.O_APPEND, 0o644); err != nil {
 		panic(err)
